@@ -135,18 +135,26 @@ Section Slab.
      slabs have a common parameter t in [0,1]; the latitude slab is tested on the rows of the two extreme latitudes of the
      common longitude/altitude interval, widened by tol_lat (the row is monotone in the latitude) *)
   Variable tl : Q.                         (* latitude tolerance: tol_lat0 (strict) or tol_lat (the SetLat cut excused) *)
-  Definition slab_voxel (g : segq) (h v : Z) (i : eid) : bool :=
-    existsb (fun k =>
-      match t_meet (Some (0, 1)%Q) (t_meet (t_lon g h (ex i) k) (t_alt g v (ef i))) with
-      | Some (t0, t1) =>
-          let la := at_t (q_ps g) (q_pe g) t0 in
-          let lb := at_t (q_ps g) (q_pe g) t1 in
-          match rowf (q2f (qmax la lb + tl)%Q), rowf (q2f (qmin la lb - tl)%Q) with
-          | Some r1, Some r2 => (r1 <=? ey i) && (ey i <=? r2)
-          | _, _ => false
-          end
-      | None => false
-      end) [0; 1].
+  (* the test for one turn k: the longitude box of column x is shifted by 360 k degrees. Longitude is cyclic (the code's own
+     convention: 180 is folded onto -180), so column 0 is ALSO the set of longitudes [180, 180 + cell): k = 1. A point within
+     the rounding band tol_lon of the meridian 180 — an end point at 180, or a float midpoint that rounds to 180 — is accepted in
+     column 0 exactly like a point within the band of any other column boundary is accepted in the next column. *)
+  Definition slab_at (g : segq) (h v : Z) (i : eid) (k : Z) : bool :=
+    match t_meet (Some (0, 1)%Q) (t_meet (t_lon g h (ex i) k) (t_alt g v (ef i))) with
+    | Some (t0, t1) =>
+        let la := at_t (q_ps g) (q_pe g) t0 in
+        let lb := at_t (q_ps g) (q_pe g) t1 in
+        match rowf (q2f (qmax la lb + tl)%Q), rowf (q2f (qmin la lb - tl)%Q) with
+        | Some r1, Some r2 => (r1 <=? ey i) && (ey i <=? r2)
+        | _, _ => false
+        end
+    | None => false
+    end.
+  Definition slab_voxel (g : segq) (h v : Z) (i : eid) : bool := existsb (slab_at g h v i) [0; 1].
+  (* voxels of column 0 that the segment meets on the meridian 180 (turn k = 1): across that meridian they touch the last column.
+     Only these are identified cyclically; a segment that does not come within the band of 180 gets plain adjacency. *)
+  Definition meridian_folds (g : segq) (h v : Z) (ids : list eid) : list eid :=
+    filter (fun i => (ex i =? 0) && slab_at g h v i 1) ids.
 End Slab.
 
 (* ---- the checker ---- *)
@@ -264,7 +272,7 @@ Theorem slab_voxel_sound rowf tl g h v i : slab_voxel rowf tl g h v i = true ->
       rowf (q2f (qmin (at_t (q_ps g) (q_pe g) t0) (at_t (q_ps g) (q_pe g) t1) - tl)) = Some r2 /\
       (r1 <= ey i <= r2)%Z.
 Proof.
-  unfold slab_voxel. rewrite existsb_exists. intros (k & Hk & H).
+  unfold slab_voxel. rewrite existsb_exists. intros (k & Hk & H). unfold slab_at in H.
   destruct (t_meet (Some (0, 1)) (t_meet (t_lon g h (ex i) k) (t_alt g v (ef i)))) as [[t0 t1]|] eqn:M; [|discriminate].
   destruct (t_meet_sound _ _ _ _ M) as (a0 & a1 & b0 & b1 & E1 & E2 & A0 & A1 & B0 & B1 & L).
   injection E1 as <- <-.
